@@ -356,6 +356,7 @@ def run(ck):
     ck.gen_from_source()
     ok, _ = ck.coq_build(["props/C05.vo", "extract/C05_extract.vo"])
     ck.print_assumptions(["DSP.C05"], ["DSP.C05." + t for t in THEOREMS])
+    ck.source_tie("findcmds")
     ck.hygiene()
     ck.ocaml_build()
     ck.harness_build(["c05"])
